@@ -66,7 +66,7 @@ fn texts(rng: &mut Rng, n: usize) -> Vec<String> {
     let pool = ["東京都", "京都", "東京", "に", "行っ", "た", "。", "アイウ", "ー", "123", "1,000.5", "a", "Zz", " ", "か", "が", "👍🏻", "ｶﾞ", "㍿", "é", "𠮷", "高輪ゲートウェイ駅", "特a", "な。な", "いく", "二千", "(とうきょう)", "xx", "東京(とうきょう)", "京都（きょうと）", "東（ひがし）", "都(と)",
                 // characters that differ only above bit 16 (one plain, one needing normalisation), and spans a later alternative of
                 // the OOV regex matches away from the window start: per-dictionary memos keyed too coarsely show up here
-                "한", "𝕜", "𠁁", "A", "1AB", "京都XAG", "。12%", "あ5%", "7%"];
+                "한", "𝕜", "𠁁", "A", "1AB", "京都XAG", "。12%", "あ5%", "7%", "xx12", "ab3"];
     (0..n)
         .map(|_| {
             let k = rng.below(10);
@@ -98,7 +98,7 @@ pub fn run(args: &Args) {
             {"class": "com.worksap.nlp.sudachi.ProlongedSoundMarkPlugin", "prolongedSoundMarks": ["ー", "-", "〜"], "replacementSymbol": "ー"},
             {"class": "com.worksap.nlp.sudachi.IgnoreYomiganaPlugin", "leftBrackets": ["(", "（"], "rightBrackets": [")", "）"], "maxYomiganaLength": 8}],
         "oovProviderPlugin": [{"class": "com.worksap.nlp.sudachi.MeCabOovPlugin", "charDef": "char.def", "unkDef": "unk.def", "userPOS": "allow"},
-            {"class": "com.worksap.nlp.sudachi.RegexOovProvider", "oovPOS": pos, "leftId": 5, "rightId": 5, "cost": 3000, "regex": "[a-z]+|[0-9]+%", "maxLength": 32},
+            {"class": "com.worksap.nlp.sudachi.RegexOovProvider", "oovPOS": pos, "leftId": 5, "rightId": 5, "cost": 3000, "regex": "[a-z]+[0-9]*|[0-9]+%", "maxLength": 32},
             {"class": "com.worksap.nlp.sudachi.SimpleOovPlugin", "oovPOS": pos, "leftId": 8, "rightId": 8, "cost": 6000}],
         "pathRewritePlugin": [{"class": "com.worksap.nlp.sudachi.JoinNumericPlugin", "enableNormalize": true},
             {"class": "com.worksap.nlp.sudachi.JoinKatakanaOovPlugin", "oovPOS": pos, "minLength": 3}],
@@ -264,7 +264,7 @@ pub fn run(args: &Args) {
         sink.tag("dictionary_vs_fresh");
         let mut t1 = StatefulTokenizer::new(d, Mode::C);
         let mut t2 = StatefulTokenizer::new(&fresh, Mode::C);
-        for t in ["xx", "abc京都", "a", "東京xx12%", "𝕜한", "A𠁁", "東京都に行った。", "ｶﾞｶﾞ㍿", "1,000.5円", "アイウエ", "京都（きょうと）ーー"] {
+        for t in ["xx", "xx12", "東京ab3に", "abc京都", "a", "東京xx12%", "𝕜한", "A𠁁", "東京都に行った。", "ｶﾞｶﾞ㍿", "1,000.5円", "アイウエ", "京都（きょうと）ーー"] {
             for m in [Mode::A, Mode::C] {
                 let a = digest_c(d, &mut t1, m, t, 0);
                 let b = digest_c(&fresh, &mut t2, m, t, 0);
